@@ -395,10 +395,10 @@ where
     /// - The group data extension cannot be extracted
     fn parse_serialized_welcome(
         &self,
-        mut welcome_message: &[u8],
+        welcome_message: &[u8],
     ) -> Result<(StagedWelcome, NostrGroupDataExtension), Error> {
-        // Parse welcome message
-        let welcome_message_in = MlsMessageIn::tls_deserialize(&mut welcome_message)?;
+        // Parse welcome message (exact: trailing bytes after the MLS message are refused)
+        let welcome_message_in = MlsMessageIn::tls_deserialize_exact(welcome_message)?;
 
         let welcome: Welcome = match welcome_message_in.extract() {
             MlsMessageBodyIn::Welcome(welcome) => welcome,
